@@ -129,7 +129,6 @@ func DecodeSenc(hdr BoxHeader, startPos uint64, r io.Reader) (Box, error) {
 	}
 	sampleCount := binary.BigEndian.Uint32(data[4:8])
 
-
 	senc := SencBox{
 		Version:          version,
 		rawData:          data[8:], // After the first 8 bytes of box content
